@@ -25,6 +25,12 @@ func PanicMatches(kind string, r *Report) bool {
 		return r.PanicType == "modsim.CustomErr" && r.PanicValue == "custom error 42"
 	case "typednil":
 		return r.PanicType == "*fs.PathError"
+	case "slice":
+		return r.PanicType == "[]string" && r.PanicValue == "[boom slice]"
+	case "map":
+		return r.PanicType == "map[string]int" && r.PanicValue == "map[boom:1]"
+	case "slicestruct":
+		return r.PanicType == "modsim.SliceStruct" && r.PanicValue == "{boom [a b]}"
 	case "ctxcanceled":
 		return r.PanicType == "*errors.errorString" && r.PanicValue == "context canceled"
 	case "ctxwrapped":
@@ -76,6 +82,7 @@ func CheckC06(sc *Scenario, res *Result) *Violation {
 	}
 	began := map[int]int{}
 	panicked := map[int]bool{}
+	panickedRuns := map[int]int{}
 	anyPanic := false
 	// lifecycle panics: the API call that invoked the routine (the first call returning after the routine began) must
 	// return an error. A routine that is still in flight when Start already returned an error for another module is
@@ -158,6 +165,9 @@ func CheckC06(sc *Scenario, res *Result) *Violation {
 				panicked[e.ID] = true
 				anyPanic = true
 			}
+			if w != nil && began[e.ID] <= w.PanickingRuns() {
+				panickedRuns[e.ID]++
+			}
 		case "work-return":
 			w := work[e.ID]
 			if w == nil {
@@ -213,8 +223,21 @@ func CheckC06(sc *Scenario, res *Result) *Violation {
 		if msg != "" {
 			return violf("C06-report-content", "report for the panic of %s #%d: %s", w.Kind, id, msg)
 		}
+		// an item that panicked in several runs (its runs never overlap) is reported every time; the harness' channel
+		// holds 256 reports and is drained all the time, so nothing is dropped
+		if !sc.NoReports && !sc.UnbufferedReports {
+			good := 0
+			for _, r := range cands {
+				if goodPanicReport(w.Panic, r) == "" {
+					good++
+				}
+			}
+			if good < panickedRuns[id] {
+				return violf("C06-report-missing", "%s #%d (module %s) panicked in %d runs but only %d of them were reported through the module error channel", w.Kind, id, mod, panickedRuns[id], good)
+			}
+		}
 		// service workers are restarted
-		if w.Kind == "service" && w.Mode == "finish" && w.BackoffMS < 1000 && began[id] < 2 {
+		if w.Kind == "service" && w.Mode == "finish" && w.BackoffMS < 1000 && began[id] < w.PanickingRuns()+1 {
 			return violf("C06-service-restart", "service worker #%d panicked and was not run again", id)
 		}
 	}
